@@ -29,14 +29,18 @@ TABLES = ["TokenDispatch"]
 CASE_TIMEOUT_S = 30
 LEVEL_TEXT = ("Lean proof over the modelled normaliser (ints, bools, floats, str, bytes, None, nested list/tuple/dict/"
               "set, 0-d / strided n-d numeric arrays, object arrays of str): norm is injective up to the structural "
-              "equality ObsEq (distinct values -> distinct pre-images) and, for well-formed values, constant on ObsEq "
-              "classes (determinism, no dependence on insertion / iteration order or memory layout); the strided-array "
-              "token is a function of (dtype, shape, logical elements) and determines them; join+lengths of object "
-              "arrays is injective; Python repr of str/bytes is prefix-free and repr of the nested token tuples is "
-              "injective. The model's pre-image string is compared with the real tokenize() on every run.")
+              "equality ObsEq (norm_injective: distinct values -> distinct normal forms) and, for well-formed values, "
+              "constant on ObsEq classes (norm_deterministic: no dependence on insertion / iteration order, hash seed or "
+              "memory layout; the stable sort by (str, type name) is canonical on distinct keys); the strided-array token "
+              "is a function of (dtype, shape, logical elements) and determines them; joined text + lengths of object "
+              "arrays determine the elements; Python repr of str / bytes / ints is self-delimiting and repr of the nested "
+              "token tuples is uniquely readable, so for plain data equal md5 pre-images imply observably equal values "
+              "(preimage_injective). The model's pre-image string is compared with the real tokenize() bit for bit on "
+              "every run.")
 LEVEL_NOTE = ("md5 and hash_buffer_hex are assumed injective (trusted); CPython repr of float, dtype and type objects are "
-              "atoms assumed injective; pickle-based normalisation (callables, arbitrary objects), pandas normalisers, "
-              "dataclasses and partials are validated by the oracle only; recursive containers (__seen) are validated only.")
+              "atoms (the printed-form injectivity theorem covers ints, bools, None, str, bytes and containers of them); "
+              "pickle-based normalisation (callables, arbitrary objects), pandas normalisers, dataclasses and partials are "
+              "validated by the oracle only; recursive containers (__seen) are validated only.")
 TECHNIQUE = "Lean 4 proof (structural induction over a nested value type) + differential correspondence on the md5 pre-image"
 ASSUMPTIONS = ["hashlib.md5 and dask.hashing.hash_buffer_hex are injective on the inputs compared",
                "CPython repr(float), repr(numpy.dtype), repr(type) are injective (carried as atoms)",
@@ -298,7 +302,8 @@ def _opq_eq(sa, sb, a, b):
     if k == "multi":
         return a.equals(b) and a.names == b.names
     if k == "cat":
-        return a.dtype == b.dtype and list(a.codes) == list(b.codes)
+        # the order of the categories is observable (a.categories), also for unordered categoricals
+        return list(a.categories) == list(b.categories) and a.ordered == b.ordered and list(a.codes) == list(b.codes)
     if k == "frame":
         return list(a.columns) == list(b.columns) and list(a.dtypes) == list(b.dtypes) and a.index.equals(b.index) \
             and a.index.dtype == b.index.dtype and a.equals(b)
@@ -306,7 +311,13 @@ def _opq_eq(sa, sb, a, b):
         return a.dtype == b.dtype and a.shape == b.shape and a.tobytes() == b.tobytes()
     if k == "plain":
         return U.obs_eq(a, b)
-    return sa == sb   # dc / partial / func / lambda: equal iff same construction
+    if k == "dc":
+        return (sa[1], sa[3], [f for f, _ in sa[2]]) == (sb[1], sb[3], [f for f, _ in sb[2]]) and \
+            all(U.obs_eq(U.build(x), U.build(y)) for (_, x), (_, y) in zip(sa[2], sb[2]))
+    if k == "partial":
+        return sa[1] == sb[1] and len(sa[2]) == len(sb[2]) and all(U.obs_eq(U.build(x), U.build(y)) for x, y in zip(sa[2], sb[2])) \
+            and [n for n, _ in sa[3]] == [n for n, _ in sb[3]] and all(U.obs_eq(U.build(x), U.build(y)) for (_, x), (_, y) in zip(sa[3], sb[3]))
+    return sa == sb   # func / lambda: equal iff same construction
 
 
 def case_opq(ctx, inp):
